@@ -30,6 +30,27 @@ pub fn scenario(prop: &str) -> Scenario {
             s.hp.max_calls = 10;
             s.max_machines = 4;
         }
+        "C02" => {
+            s.mp.act_none = 1;
+            s.mp.act_cancel = 0;
+            s.mp.act_pad = 8;
+            s.mp.act_block = 1;
+            s.mp.act_timer = 0;
+            s.mp.counters = 0;
+            s.mp.limits = 0;
+            s.mp.signals = 0;
+            s.mp.ends = 3;
+            s.mp.trans_density = 60;
+            s.mp.dist = DistMode::Const;
+            s.mp.prob = ProbMode::Dyadic;
+            s.hp.min_events = 1;
+            s.hp.max_events = 1;
+            s.hp.max_calls = 14;
+            s.hp.weights = [2, 1, 3, 6, 6, 2, 1, 1, 1, 1];
+            s.hp.huge_times = false;
+            s.min_machines = 1;
+            s.max_machines = 4;
+        }
         "C04" => {
             s.mp.ends = 35;
             s.mp.signals = 25;
@@ -84,6 +105,7 @@ pub fn monitor(prop: &str, c: &FwCase, run: &FwRun) -> Option<String> {
     match prop {
         "C01" => mon_c01(c, run),
         "C04" => mon_c04(c, run),
+        "C02" => mon_c02(c, run),
         _ => None,
     }
 }
@@ -112,8 +134,15 @@ fn mon_c01(c: &FwCase, run: &FwRun) -> Option<String> {
 }
 
 /// is the case non-trivial for the property (its mechanism fired)?
-pub fn nontrivial(_prop: &str, _c: &FwCase, run: &FwRun) -> bool {
-    run.calls.iter().any(|c| !c.actions.is_empty())
+pub fn nontrivial(prop: &str, c: &FwCase, run: &FwRun) -> bool {
+    match prop {
+        // a padding action was returned and a padding action was denied by a budget
+        "C02" => {
+            run.calls.iter().any(|c| c.actions.iter().any(|a| matches!(a, TriggerAction::SendPadding { .. })))
+                && c.machines.iter().any(|m| m.max_padding_frac > 0.0 || m.allowed_padding_packets > 0) 
+        }
+        _ => run.calls.iter().any(|c| !c.actions.is_empty()),
+    }
 }
 
 use maybenot::action::Action;
@@ -172,6 +201,90 @@ fn mon_c04(c: &FwCase, run: &FwRun) -> Option<String> {
                 ended[mi] = true;
             } else if ended[mi] {
                 return Some(format!("call {}: machine {} left its end state", j, mi));
+            }
+        }
+    }
+    None
+}
+
+/// exact test  p / t < f  for a finite f64 f >= 0 (p, t < 2^40)
+pub fn ratio_below(p: u64, t: u64, f: f64) -> bool {
+    if t == 0 {
+        return true;
+    }
+    if !(f > 0.0) {
+        return false;
+    }
+    if f.is_infinite() {
+        return true;
+    }
+    // f = mant * 2^exp exactly
+    let bits = f.to_bits();
+    let e = ((bits >> 52) & 0x7ff) as i64;
+    let frac = bits & ((1u64 << 52) - 1);
+    let (mant, exp) = if e == 0 { (frac, -1074) } else { (frac | (1 << 52), e - 1075) };
+    // p / t < mant * 2^exp  <=>  p < mant * t * 2^exp
+    let lhs = p as u128;
+    let rhs = (mant as u128) * (t as u128);
+    if exp >= 0 {
+        if exp > 20 {
+            return true;
+        }
+        lhs < (rhs << exp)
+    } else {
+        let sh = (-exp) as u32;
+        if sh > 80 {
+            // f < 2^-27 * 2^-..; with p >= 1 and t < 2^40 the quotient is larger
+            return p == 0 && rhs > 0;
+        }
+        (lhs << sh) < rhs
+    }
+}
+
+fn frac_below(f: f64, p: u64, t: u64) -> bool {
+    !(f > 0.0) || t == 0 || ratio_below(p, t, f)
+}
+
+/// C02: recount NormalSent / PaddingSent from the fed history; every returned
+/// SendPadding must be within budget or below both fraction limits
+fn mon_c02(c: &FwCase, run: &FwRun) -> Option<String> {
+    let n = c.machines.len();
+    let mut normal: u64 = 0;
+    let mut pad: u64 = 0;
+    let mut pad_i = vec![0u64; n];
+    for (j, rec) in run.calls.iter().enumerate() {
+        let evs = &c.calls[j].1;
+        for e in evs {
+            match e {
+                maybenot::TriggerEvent::NormalSent => normal += 1,
+                maybenot::TriggerEvent::PaddingSent { machine } => {
+                    pad += 1;
+                    if machine.into_raw() < n {
+                        pad_i[machine.into_raw()] += 1;
+                    }
+                }
+                _ => {}
+            }
+        }
+        if evs.len() != 1 {
+            continue;
+        }
+        for a in &rec.actions {
+            if let TriggerAction::SendPadding { machine, .. } = a {
+                let i = machine.into_raw();
+                if i >= n {
+                    continue;
+                }
+                let m = &c.machines[i];
+                let ok = pad_i[i] < m.allowed_padding_packets
+                    || (frac_below(m.max_padding_frac, pad_i[i], normal + pad_i[i])
+                        && frac_below(c.fpad, pad, pad + normal));
+                if !ok {
+                    return Some(format!(
+                        "call {}: SendPadding for machine {} with {} own paddings (budget {}), machine fraction {}/{} vs limit {}, global fraction {}/{} vs limit {}",
+                        j, i, pad_i[i], m.allowed_padding_packets, pad_i[i], normal + pad_i[i], m.max_padding_frac, pad, pad + normal, c.fpad
+                    ));
+                }
             }
         }
     }
